@@ -823,9 +823,172 @@ def stream_value_history(ctx, res):
     res["distribution"]["value_history_square_or_swapped_video_cases"] = sum(1 for c in cases if c[2] == c[3] or (c[2], c[3]) in ((360, 640), (1080, 1920), (32, 15)))
 
 
+# ------------------------------------------------------------------------------------------------ H
+import operator as _op
+
+BINOPS = [("+", _op.add), ("-", _op.sub), ("*", _op.mul), ("/", _op.truediv), ("<", _op.lt), ("<=", _op.le), ("==", _op.eq),
+          ("!=", _op.ne), ("+=", _op.iadd), ("-=", _op.isub), ("*=", _op.imul), ("/=", _op.itruediv)]
+UNOPS = [("abs", abs), ("neg", _op.neg), ("pos", _op.pos), ("bool", bool), ("hash", hash), ("str", str), ("repr", repr)]
+
+
+def operands_check(label, operands, thunk):
+    """run thunk(); every operand (not only the receiver) must have the same snapshot and the same hash afterwards, and an
+    operand used as a dict key must still be found -> (violation dict or None, outcome tag)"""
+    before = [geom.value_snap(o) for o in operands]
+    hashes = [impl.call(hash, o) for o in operands]
+    keyed = [({o: True} if isinstance(hh, Ok) else None) for o, hh in zip(operands, hashes)]
+    r = impl.call(thunk)
+    after = [geom.value_snap(o) for o in operands]
+    hashes2 = [impl.call(hash, o) for o in operands]
+    lost = [i for i, (o, d) in enumerate(zip(operands, keyed)) if d is not None and o not in d]
+    same_hash = all((isinstance(a, Err) and isinstance(b, Err)) or a == b for a, b in zip(hashes, hashes2))
+    if before != after or not same_hash or lost:
+        return {"kind": "operand-modified", "replay": "operands", "input": [label, repr(before)],
+                "impl_obs": repr(after)[:300],
+                "what": f"{label}: an operand was modified ({before!r} -> {after!r}), its hash changed, or it is no longer found "
+                        f"as a dict key"}, "viol"
+    return None, ("raised" if isinstance(r, Err) else "ok")
+
+
+def shared_layout_set(lay, ncaps, at_nodes):
+    from pycaption import CaptionSet, CaptionList, Caption, CaptionNode
+    caps = []
+    for k in range(ncaps):
+        nodes = [CaptionNode.create_text("word%d" % k, layout_info=lay if at_nodes else None)]
+        caps.append(Caption((k + 1) * 2000000, (k + 1) * 2000000 + 1500000, nodes, layout_info=lay))
+    return CaptionSet({"en-US": CaptionList(caps, layout_info=lay if at_nodes else None)})
+
+
+def check_shared_layout(l, fmt, cfg, ncaps, at_nodes):
+    """ONE Layout object shared by every caption (and node / language) of a set, written once: every cue / caption must be
+    positioned identically, and the caller's layout must equal its snapshot afterwards"""
+    import re as _re
+    from pycaption import DFXPWriter, SAMIWriter, WebVTTWriter, DFXPReader
+    rel, fit, w, h = cfg
+    lay = geom.mk_layout(l)
+    cs = shared_layout_set(lay, ncaps, at_nodes)
+    before = geom.value_snap(lay)
+    hb = hash(lay)
+    W = {"vtt": WebVTTWriter, "dfxp": DFXPWriter, "sami": SAMIWriter}[fmt]
+    r = impl.call(lambda: W(relativize=rel, fit_to_screen=fit, video_width=w, video_height=h).write(cs))
+    base = {"replay": "shared-layout", "input": [list(l), fmt, list(cfg), ncaps, at_nodes]}
+    layouts_after = [c.layout_info for c in cs.get_captions("en-US")]
+    if geom.value_snap(lay) != before or hash(lay) != hb or any(x is not lay for x in layouts_after):
+        return dict(base, kind="operand-modified", impl_obs=repr(geom.value_snap(lay))[:300],
+                    what=f"{fmt} writer: the Layout object shared by the captions of the written set was modified / replaced "
+                         f"({before!r} -> {geom.value_snap(lay)!r})")
+    if isinstance(r, Err):
+        return None
+    if fmt == "vtt":
+        settings = [m.group(1) for m in _re.finditer(r"(?m)^\S+ --> \S+(.*)$", r.v)]
+        if len(settings) != ncaps or len(set(settings)) != 1:
+            return dict(base, kind="shared-layout-drift", impl_obs=repr(settings)[:300],
+                        what=f"WebVTT: {ncaps} captions sharing ONE Layout object got the cue settings {settings!r} (must be identical)")
+    elif fmt == "dfxp":
+        rd = impl.call(lambda: DFXPReader().read(r.v))
+        if isinstance(rd, Ok):
+            ls = [geom.value_snap(c.layout_info) for c in rd.v.get_captions("en-US")]
+            if len(ls) != ncaps or any(x != ls[0] for x in ls):
+                return dict(base, kind="shared-layout-drift", impl_obs=repr(ls)[:300],
+                            what=f"DFXP: {ncaps} captions sharing ONE Layout object read back with different layouts")
+    return None
+
+
+def stream_operands(ctx, res):
+    """values are not modified: augmented assignment and every operator the classes define leave ALL operands (and their
+    hashes, as dict keys) unchanged; one Layout object shared by several captions gives identical cue settings"""
+    rng = ctx.rng
+    out = {}
+
+    def note(k):
+        out[k] = out.get(k, 0) + 1
+    bad = []
+    # ---- operators on Sizes (same unit / other unit), Points, Stretches, Paddings
+    for i in range(ctx.n(1200, 30000)):
+        u = rng.randrange(5)
+        s = geom.mk_size((geom.rand_value(rng, wild=False), u))
+        t = geom.mk_size((geom.rand_value(rng, wild=False), u if rng.random() < 0.8 else rng.randrange(5)))
+        name, f = BINOPS[i % len(BINOPS)]
+        other = t if rng.random() < 0.8 else rng.choice([2, 0.5])
+
+        def thunk(f=f, s=s, other=other):
+            x = s            # x = s; x += t  (for the in-place operators: operator.iadd(x, t))
+            x = f(x, other)
+            return x
+        v, tag = operands_check(f"Size {geom.value_snap(s)!r} {name} {other!r}", [s] + ([other] if other is t else []), thunk)
+        res["evaluations"] += 1
+        note(f"size {name}:{tag}")
+        if v:
+            bad.append(v)
+        uname, g = UNOPS[i % len(UNOPS)]
+        v, tag = operands_check(f"{uname}(Size {geom.value_snap(s)!r})", [s], lambda g=g, s=s: g(s))
+        note(f"size {uname}:{tag}")
+        if v:
+            bad.append(v)
+    for i in range(ctx.n(400, 8000)):
+        sz = lambda: geom.rand_size(rng, units=(2,) if rng.random() < 0.7 else (0, 1, 2, 3, 4), wild=False)  # noqa: E731
+        p, q = geom.mk_point((sz(), sz())), geom.mk_point((sz(), sz()))
+        st = geom.mk_stretch((sz(), sz()))
+        pd = geom.mk_padding((sz(), sz(), sz(), sz()))
+        for label, ops, thunk in (
+                ("Point - Point", [p, q], lambda: p - q), ("Point -= Point", [p, q], lambda: _op.isub(p, q)),
+                ("Point + Point", [p, q], lambda: p + q), ("Point.add_stretch", [p, st], lambda: p.add_stretch(st)),
+                ("Point.align_from_origin", [p, q], lambda: Point.align_from_origin(p, q)),
+                ("Point == Point / hash", [p, q], lambda: (p == q, p != q, hash(p), hash(q))),
+                ("Stretch == / bool / attr", [st, pd], lambda: (st == st, bool(st), st.to_xml_attribute(), pd.to_xml_attribute(), pd == pd)),
+                ("Padding.as_percentage_of", [pd, st], lambda: pd.as_percentage_of(640, 360))):
+            v, tag = operands_check(label, ops, thunk)
+            res["evaluations"] += 1
+            note(f"{label}:{tag}")
+            if v:
+                bad.append(v)
+    # ---- layouts: ==, hash, relativize, fit on pairs; both operands snapshotted
+    for i in range(ctx.n(400, 8000)):
+        a = geom.mk_layout(geom.rand_layout(rng, wild=False))
+        b = geom.mk_layout(geom.rand_layout(rng, wild=False))
+        for label, thunk in (("Layout == / != / hash", lambda: (a == b, a != b, b == a, hash(a), hash(b))),
+                             ("Layout.as_percentage_of + fit_to_screen", lambda: a.as_percentage_of(640, 360).fit_to_screen()),
+                             ("Layout in list / dict", lambda: (a in [b, a], {a: 1, b: 2}.get(a)))):
+            v, tag = operands_check(label, [a, b], thunk)
+            res["evaluations"] += 1
+            note(f"{label}:{tag}")
+            if v:
+                bad.append(v)
+    # ---- ONE Layout object shared by several captions, at writer level
+    shared = []
+    P = lambda v: (v, 2)  # noqa: E731
+    dets = [((P(10), P(10)), None, (P(5), P(5), P(5), P(5)), None, None),
+            ((P(10), P(20)), (P(60), P(30)), (P(1), P(2), P(3), P(4)), (0, 0), None),
+            ((P(15), P(5)), (P(50), P(10)), (P(0), P(0), P(5), P(0)), None, None)]
+    for l in dets:
+        for fmt in ("vtt", "dfxp", "sami"):
+            for cfg in ((False, False, None, None), (True, True, None, None), (True, False, 640, 360), (True, True, 640, 360)):
+                for at_nodes in (False, True):
+                    shared.append((l, fmt, cfg, 3 + (at_nodes and 1), at_nodes))
+    for _ in range(ctx.n(150, 3000)):
+        l = geom.rand_layout(rng, units=(2,), p_none=0.15, wild=False)
+        shared.append((l, rng.choice(["vtt", "vtt", "dfxp", "sami"]),
+                       rng.choice([(False, False, None, None), (True, True, None, None), (True, True, 640, 360)]),
+                       rng.randint(2, 5), rng.random() < 0.4))
+    for c in shared:
+        v = check_shared_layout(*c)
+        res["evaluations"] += 1
+        note(f"shared layout {c[1]}:{'viol' if v else 'ok'}")
+        if v:
+            bad.append(v)
+        elif c[0][0] is not None and c[0][2] is not None:
+            res["nontrivial"].add(("shared-layout", repr(c)))
+    seen = {}
+    for v in bad:
+        if seen.get(v["kind"], 0) < 2:
+            seen[v["kind"]] = seen.get(v["kind"], 0) + 1
+            res["violations"].append(v)
+    res["distribution"]["operands(all operands snapshotted and hashed before / after every operator; one Layout object shared by several captions)"] = out
+
+
 def run(ctx):
     res = {"evaluations": 0, "nontrivial": set(), "violations": [], "disagreements": [], "distribution": {},
-           "streams": 7, "notes": []}
+           "streams": 8, "notes": []}
     stream_parse(ctx, res)
     stream_print(ctx, res)
     stream_eq(ctx, res)
@@ -833,6 +996,7 @@ def run(ctx):
     stream_fresh(ctx, res)
     stream_attr_print(ctx, res)
     stream_value_history(ctx, res)
+    stream_operands(ctx, res)
     res["rule"] = ("parse: exhaustive short strings over the alphabet %r + structured long strings (no exclusion), non-trivial = "
                    "accepted; print: value grid + random non-negative binary64 values up to 1e23 x 5 units and every value "
                    "parsed in stream A, non-trivial = not a multiple of 0.01; eq: pairs over a grid exhaustive in units/alignments/"
@@ -852,6 +1016,7 @@ def run(ctx):
         "correspondence_only": ["the regex engine / float() / round() / f-string formatting behind from_string and __str__",
                                 "binary64: values beyond 1.8e308 become inf (known finding C18-parse-overflow); NaN / negative values not generated",
                                 "receiver not modified by as_percentage_of / fit_to_screen (snapshot of the geometric fields, execution)",
+                                "no operand of any operator (+, -, +=, -=, *, /, <, ==, abs, neg, hash, str ...) or method is modified, hashes stable while used as dict keys; one Layout object shared by several captions gives identical cue settings in every writer (execution)",
                                 "CPython hash() on floats, enum members, None; that every geometry value is hashable"]}
     return res
 
@@ -888,6 +1053,12 @@ def replay(ctx, rec):
             return True, o
         ok = oracle1(1809, [wire_val(a), wire_val(b)] + list(o))
         return ok != 1, o
+    if tag == "shared-layout":
+        def t3(y):
+            return tuple(t3(z) for z in y) if isinstance(y, list) else y
+        l, fmt, cfg, ncaps, at_nodes = rec["input"]
+        v = check_shared_layout(t3(l), fmt, tuple(cfg), ncaps, at_nodes)
+        return bool(v) and v["kind"] == rec.get("kind"), (v or {"what": "ok"})["what"]
     if tag == "value-history":
         def t2(y):
             return tuple(t2(z) for z in y) if isinstance(y, list) else y
